@@ -938,6 +938,27 @@ FUNCS = [
          verbatim=[("let mut buffer = vec![0u8; block_size];", "let mut buffer : List Nat := []"),
                    ("let mut bytes_read = 0;", "let mut bytes_read : Nat := 0"),
                    ("let data = &buffer[..bytes_read];", "let data := buffer.take bytes_read")]),
+    # ---- signature.rs::SignatureTable: the two-level lookup the scans go through
+    dict(group="delta", file="src/signature.rs", name="from_signature", sig=None,
+         lean="def tableIndex {D : Type} (blocks : List (BlockSig D)) : List (Nat × List Nat) := Id.run do\n"
+              "  -- world: `weak_index`, the map weak hash ↦ positions in the block list, as an association list",
+         epilogue=["return weak_index"], calls={}, paths={},
+         verbatim=[("let mut weak_index: FxHashMap<u32, Vec<usize>> = FxHashMap::with_capacity_and_hasher(signature.blocks.len(), rustc_hash::FxBuildHasher);",
+                    "let mut weak_index : List (Nat × List Nat) := []"),
+                   ("for (i, block) in signature.blocks.iter().enumerate() { weak_index.entry(block.weak_hash).or_default().push(i); }",
+                    "for (i, block) in enumerate blocks do\n  weak_index := idxPush weak_index block.weak i"),
+                   ("Self { weak_index, signature, }", "")]),
+    dict(group="delta", file="src/signature.rs", name="find_match", sig=None, option=True, no_loop=True,
+         lean="def findMatchGen {D : Type} [DecidableEq D] (H : List Nat → D) (weak_index : List (Nat × List Nat)) (blocks : List (BlockSig D))\n"
+              "    (weak : Nat) (data : List Nat) : Option (BlockSig D) := Id.run do",
+         calls={}, paths={"StrongHash::compute": "H"},
+         verbatim=[("let candidates = self.weak_index.get(&weak)?;", "let some candidates := idxGet weak_index weak | return none"),
+                   ("candidates .iter() .map(|&i| &self.signature.blocks[i]) .find(|sig| sig.strong_hash == strong)",
+                    "return (candidates.filterMap fun i => blocks[i]?).find? (fun sig => decide (sig.strong = strong))")]),
+    dict(group="delta", file="src/signature.rs", name="has_weak_match", sig=None,
+         lean="def hasWeakGen (weak_index : List (Nat × List Nat)) (weak : Nat) : Bool := Id.run do",
+         calls={}, paths={},
+         verbatim=[("self.weak_index.contains_key(&weak)", "return (idxGet weak_index weak).isSome")]),
     dict(group="delta", file="src/signature.rs", fn="generate", sig=None, name="generate (the block list: `let blocks = if … else …;`)",
          slice=("let blocks: Vec<BlockSignature> = if", "let expected_blocks"), slice_until=True,
          lean="def generateBlocks {D : Type} (H : List Nat → D) (block_size : Nat) (data : List Nat) : List (BlockSig D) := Id.run do",
